@@ -173,10 +173,12 @@ impl<T> Queue<T> {
             let node = Node::new(Some(t));
             let prev = self.head.swap(node, Ordering::AcqRel);
             (*node).prev = prev;
-            (*prev).next.store(node, Ordering::Release);
+            // read the consumer position before linking: once linked, `prev` can be
+            // consumed and freed, and a new stub at the same address would look like an empty list
             #[cfg(may_verif)]
             crate::verif::point("tail.read", self.tail.get() as usize, 0);
             let tail = *self.tail.get();
+            (*prev).next.store(node, Ordering::Release);
             let is_head = std::ptr::eq(tail, prev);
             (Entry(ptr::NonNull::new_unchecked(node)), is_head)
         }
